@@ -38,3 +38,33 @@ Example C11_nonvacuous :
       OCleanup (3 * hour) []; OLen; ORead [1%N] false (4 * hour); ORead [2%N] false (4 * hour)]).1.2
   = [RUnit; RUnit; RUnit; RUnit; RLen 2; RVal 1; RErr ENotFound].
 Proof. vm_compute. reflexivity. Qed.
+
+(* ---- tie to the source: the function bodies below are re-translated from /repo on every run
+   (harness/cmd/gofunc -> theories/Generated/Funcs.v, interpreted by theories/GoIR.v); the statements say that
+   the translated source computes what the model assumes, for ALL inputs. A change of the source that alters
+   the computed function breaks the proof. ---- *)
+From Coq Require Import String.
+From Cache Require Import GoIR TieCleanup.
+Open Scope string_scope.
+Open Scope Z_scope.
+From Cache.Generated Require Import Funcs.
+
+(* Trait.invokeCleanup: the delete-expired scan runs iff TimeToLive is finite or an expiration was ever set, with
+   boundary now - DeleteExpiredAfter; eviction runs iff a limit is breached or EvictionNeeded() holds *)
+Theorem C11_source_cleanup_cycle : forall c i,
+  run_cleanup c i =
+  Some (if scan_runs c i then [[VZ (ci_now i - eff_del_after c)]] else [],
+        if evicts i then [[VF (evict_fraction i)]] else [],
+        if evicts i && ci_has_stat i then [[VStr "cache_evict"; VF (FOfZ (ci_evicted i))]] else []).
+Proof. exact tie_invoke_cleanup. Qed.
+Print Assumptions C11_source_cleanup_cycle.
+
+(* the three deleteExpired loops remove an entry iff it expires (E <> 0) and expired before the boundary *)
+Theorem C11_source_delete_expired : forall boundary e,
+  run_sharded_body fn_shardedMap_deleteExpired boundary e = Some (long_expired boundary e) /\
+  run_sharded_body fn_shardedMapOf_deleteExpired boundary e = Some (long_expired boundary e) /\
+  run_sync_body boundary e = Some (long_expired boundary e, true).
+Proof.
+  intros; split; [exact (tie_delete_expired_sharded _ _)|split; [exact (tie_delete_expired_sharded_of _ _)|exact (tie_delete_expired_sync _ _)]].
+Qed.
+Print Assumptions C11_source_delete_expired.
